@@ -65,21 +65,21 @@ PureOK(ev) == ("kid" \in DOMAIN ev /\ ev.kid \in DOMAIN seen) =>
                  /\ seen[ev.kid].canon = ev.canon
                  /\ seen[ev.kid].e = ev.e /\ seen[ev.kid].chars = ev.chars
 
-Diag(ev) ==
+Diag(ev, failedAt) ==
   LET syn == Syntax(ev.e, ev.chars) IN
-  [failed |-> TLCGet(7),      \* the conjunct of EventOK that was being evaluated when the event was refused
+  [failed |-> failedAt,       \* the conjunct of EventOK that was being evaluated when the event was refused
    claim |-> ClaimOK(ev, syn), status |-> StatusOK(ev, syn), ticks |-> TicksOK(ev) /\ StepsOK(ev, syn), ast |-> AstOK(ev, syn),
    shape |-> IF syn.v = "accept" THEN Flat(Shape(syn.tree, syn.toks)) ELSE <<>>,
    parse_steps |-> IF LexOk(syn.toks) THEN ParseSt(KindsOf(syn.toks)).st ELSE -1,
-   eval_nodes |-> IF syn.v = "accept" THEN EvalNodes(syn.tree) ELSE -1, value |-> ValueOK(ev, syn), pure |-> TLCGet(7) # "pure",
+   eval_nodes |-> IF syn.v = "accept" THEN EvalNodes(syn.tree) ELSE -1, value |-> ValueOK(ev, syn), pure |-> failedAt # "pure",
    verdict |-> syn.v, rule |-> syn.rule, kinds |-> KindsOf(syn.toks), expected |-> Value(ev.e, syn, PhOf(ev))]
 
 EventOK(ev) ==
   LET syn == Syntax(ev.e, ev.chars) IN
   /\ TLCSet(7, "claim")  /\ ClaimOK(ev, syn)
   /\ TLCSet(7, "status") /\ StatusOK(ev, syn)
-  /\ TLCSet(7, "ticks")  /\ TicksOK(ev) /\ StepsOK(ev, syn)
   /\ TLCSet(7, "ast")    /\ AstOK(ev, syn)
+  /\ TLCSet(7, "ticks")  /\ TicksOK(ev) /\ StepsOK(ev, syn)
   /\ TLCSet(7, "value")  /\ ValueOK(ev, syn)
   /\ TLCSet(7, "pure")   /\ PureOK(ev)
   /\ TLCSet(7, "none")
@@ -94,11 +94,12 @@ Count(ev) ==
   /\ TLCSet(5, TLCGet(5) + (IF syn.v = "unspec" THEN 1 ELSE 0))
   /\ TLCSet(6, TLCGet(6) + (IF HasClaim(ev) THEN 1 ELSE 0))
 
-TInit == l = 1 /\ seen = <<>> /\ (\A i \in 1..6 : TLCSet(i, 0)) /\ TLCSet(7, "none")
+TInit == l = 1 /\ seen = <<>> /\ (\A i \in 1..6 : TLCSet(i, 0)) /\ TLCSet(7, "none") /\ TLCSet(8, <<>>)
+\* every event is consumed; one that is not a behaviour of the specification is noted (register 8: its index and the conjunct of
+\* EventOK that refused it) and validation goes on with the next - one pass finds every refused event of the trace
 TCall == /\ l <= Len(Rec)
          /\ Rec[l].ev = "Call"
-         /\ EventOK(Rec[l])
-         /\ Count(Rec[l])
+         /\ IF EventOK(Rec[l]) THEN Count(Rec[l]) ELSE TLCSet(8, Append(TLCGet(8), <<l, TLCGet(7)>>))
          /\ seen' = IF "kid" \in DOMAIN Rec[l] /\ Rec[l].kid \notin DOMAIN seen
                     THEN (Rec[l].kid :> [canon |-> Rec[l].canon, e |-> Rec[l].e, chars |-> Rec[l].chars]) @@ seen
                     ELSE seen
@@ -108,11 +109,16 @@ TReset == /\ l <= Len(Rec) /\ Rec[l].ev = "Reset" /\ seen' = <<>> /\ l' = l + 1
 TNext == TCall \/ TReset
 TSpec == TInit /\ [][TNext]_tvars
 
-\* acceptance: every event was consumed; otherwise print the first one that is not a behaviour of the spec
+\* acceptance: every event was consumed (else the trace itself is malformed) and none was refused; the refused ones are printed
+\* (at most 80 per refusing conjunct in full)
 Accepted ==
-  LET d == TLCGet("stats").diameter IN
-  IF d - 1 = Len(Rec) THEN PrintT(<<"TRACE-ACCEPTED", ToJson([events |-> Len(Rec), value_decided |-> TLCGet(1), error_decided |-> TLCGet(2),
-                                                          rejects |-> TLCGet(3), accepts |-> TLCGet(4), unspecified |-> TLCGet(5), claims |-> TLCGet(6)])>>)
-  ELSE /\ PrintT(<<"TRACE-REJECTED", d, ToJson(Rec[d]), ToJson(Diag(Rec[d]))>>)
-       /\ FALSE
+  LET d == TLCGet("stats").diameter
+      bad == TLCGet(8) IN
+  IF d - 1 # Len(Rec) THEN PrintT(<<"TRACE-STUCK", d>>) /\ FALSE
+  ELSE /\ \A c \in {"claim", "status", "ast", "ticks", "value", "pure"} :
+            LET bc == SelectSeq(bad, LAMBDA b : b[2] = c) IN
+            \A i \in 1..Len(bc) : i > 80 \/ PrintT(<<"TRACE-REJECTED", bc[i][1], ToJson(Rec[bc[i][1]]), ToJson(Diag(Rec[bc[i][1]], c))>>)
+       /\ PrintT(<<"TRACE-ACCEPTED", ToJson([events |-> Len(Rec), value_decided |-> TLCGet(1), error_decided |-> TLCGet(2),
+                                            rejects |-> TLCGet(3), accepts |-> TLCGet(4), unspecified |-> TLCGet(5), claims |-> TLCGet(6),
+                                            refused |-> Len(bad)])>>)
 =============================================================================
